@@ -6,7 +6,7 @@ from execclient import Script, hx, by_index
 from langbatch import unhex_diag
 from model_lang import dump_to_plain
 from runner import Failure, Outcome, h64
-from schema import (HAND, schemas, emit_schema, walk, F_COMMENTS, F_NOCASE, F_LIST, F_MULTI, F_TITLE, F_KEYSTRVAL, F_NODEFAULT,
+from schema import (HAND, schemas, emit_schema, walk, F_SIMPLE, F_COMMENTS, F_NOCASE, F_LIST, F_MULTI, F_TITLE, F_KEYSTRVAL, F_NODEFAULT,
                     o_int, o_float, o_bool, o_str, o_list, o_sec)
 
 HAND["c05"] = [
@@ -86,7 +86,7 @@ class C05:
     variants = ("asan",)
     fuzz_target = "fuzz_roundtrip"
     rule = ("schemas of printable kinds (hand-built and random: INT/FLOAT/BOOL/STR scalars and lists, sections incl. "
-            "MULTI|TITLE, KEYSTRVAL) x states produced by random accepted texts and/or random setter sequences (typed "
+            "MULTI|TITLE, KEYSTRVAL, CFG_SIMPLE_* options at the top level) x states produced by random accepted texts and/or random setter sequences (typed "
             "setters at indices, setlist/addlist, setmulti, addtsec with arbitrary titles, setters inside the new sections), "
             "strings and titles over all bytes 1..255 weighted towards quotes, backslash, $, {, }, comment markers, newlines; "
             "finite floats; CFGF_COMMENTS on and off, with annotations (one-line and multi-line) from comments placed anywhere "
@@ -102,9 +102,12 @@ class C05:
         schema = HAND[case["schema"]] if isinstance(case["schema"], str) else case["schema"]
         flags = case["flags"]
         s = Script()
-        emit_schema(s, 0, schema)
+        # "simple" options keep their value in a variable of the application, one per schema: every context gets its own
+        simple = any(o["f"] & F_SIMPLE for o in schema)
+        for sid in ((0, 1, 2) if simple else (0,)):
+            emit_schema(s, sid, schema)
         for h in (1, 2, 3):
-            s.add("init", h, 0, flags)
+            s.add("init", h, h - 1 if simple else 0, flags)
         for op in case["ops"]:
             if op[0] == "parse":
                 s.add("parse_buf", 1, hx(gen_text.render(op[1])))
@@ -138,6 +141,8 @@ class C05:
                 fail = Failure("second-print-differs", "P1 %r\nP2 %r" % (P1, P2))
             elif t[r2]["rc"] != 0 or P3 != P2:
                 fail = Failure("no-fixpoint", "rc=%d\nP2 %r\nP3 %r" % (t[r2]["rc"], P2, P3))
+        if simple:
+            cl.add("simple-option")
         return Outcome(classes=sorted(cl) + (["comments"] if flags & F_COMMENTS else []), nontrivial=bool(cl), key=P1, failure=fail,
                        sample={"flags": flags, "printed": P1[:400]})
 
@@ -155,7 +160,7 @@ class C05:
                 opts = HAND[sc]
             else:
                 opts = draw(schemas(nocase=bool(flags & F_NOCASE), allow_func=False, allow_ptr=False, allow_deprecated=False,
-                                    allow_single_title=False))
+                                    allow_single_title=False, allow_simple=True))
                 sc = opts
             ops = []
             handles = {}          # handle -> sub-option list (sections created by addtsec)
